@@ -5,6 +5,7 @@ package xds
 
 import (
 	"fmt"
+	"regexp"
 	"sort"
 	"strings"
 
@@ -1139,11 +1140,17 @@ func makeSpiffePattern(src rbacService) string {
 	}
 
 	// Match on any namespace or service if it is a wildcard, or on a specific value otherwise.
+	// An exact value is a literal, not a pattern: quote it so that regex metacharacters in a
+	// name (e.g. the "." of "web.v1") only match themselves.
 	if ns == structs.WildcardSpecifier {
 		ns = anyPath
+	} else {
+		ns = regexp.QuoteMeta(ns)
 	}
 	if svc == structs.WildcardSpecifier {
 		svc = anyPath
+	} else {
+		svc = regexp.QuoteMeta(svc)
 	}
 
 	// If service is imported from a peer, the SpiffeID must
@@ -1162,7 +1169,7 @@ func makeSpiffePattern(src rbacService) string {
 		Datacenter: anyPath,
 
 		// Partition can only ever be an exact value.
-		Partition: ap,
+		Partition: regexp.QuoteMeta(ap),
 	}
 
 	return fmt.Sprintf(`^%s://%s%s$`, id.URI().Scheme, id.Host, id.URI().Path)
